@@ -124,7 +124,12 @@ class C17(Check):
         gap = enc_pdos([(0x1a00, 3, [(0x6000, 1, 1), (0, 0, 7), (0x6000, 0x11, 16), (0, 0, 8), (0x6010, 1, 32)])])
         return [{"img": build_image((2, 0x1234, 5, 77), [(41, enc_sms([(0x1000, 128, 0x26, 1), (0x1080, 128, 0x22, 2), (0x1100, 4, 0x24, 3), (0x1180, 6, 0x20, 4)])),
                                                           (50, gap), (51, enc_pdos([(0x1600, 2, [(0x7000, 1, 16), (0x7000, 2, 8)])]))]),
-                 "mode8": m, "busy": b, "seed": 1} for m in (True, False) for b in (0, 2)]
+                 "mode8": m, "busy": b, "seed": 1} for m in (True, False) for b in (0, 2)] + [
+            # a large EEPROM: twenty vendor categories of 512 bytes, the sync-manager category BEHIND them (beyond 8 KiB, word
+            # address 0x1000 and more): about 1300 (8-byte) / 2600 (4-byte) reads in a row
+            {"img": build_image((2, 0x5678, 1, 9), [(0x8000 + k, bytes((k * 7 + j) & 0xff for j in range(512))) for k in range(20)]
+                                + [(41, enc_sms([(0x1000, 64, 0x26, 1), (0x1080, 64, 0x22, 2), (0x1100, 2, 0x24, 3), (0x1180, 10, 0x20, 4)]))]),
+             "mode8": m, "busy": 0, "seed": 3} for m in (True, False)]
 
     def run_impl(self, case):
         from ebpfcat.ebpfcat import SimpleEtherCat
